@@ -50,7 +50,9 @@ MANIFEST = dict(
          "accumulator modes; all histories of 2 calls, sampled ones of 5); after every call getPos/rank/Q/getDipole "
          "equal the abstract state, the energies among the objects and a probe equal those of FRESH sites built in "
          "the abstract state, and V/V_noE equal the sum of the contributions since the last Reset, each evaluated "
-         "on a fresh source/target pair.",
+         "on a fresh source/target pair. Many-site operator (DdiFamily.tla, N = 50 and 400 lattice sites): "
+         "DipoleDipoleInteraction::multiply with 2, 4, 8 OpenMP threads (10 repetitions) equals the 1-thread result, "
+         "equals the dense product of FillTholeInteraction blocks, and y.(op x) = x.(op y) (1e-10 relative).",
     note="NOT covered: convergence of shrinking point-charge CLUSTER energies to the multipole energy (a limit; only "
          "the limit's exact value on integer-length lattice separations is checked; the spec's formula was compared "
          "once with explicit clusters in exact arithmetic by spec/multipole/crosscheck.py, outside the check); "
@@ -503,6 +505,59 @@ def replay_hist(ctx, exe, recs):
     ctx.extra["histories_replayed"] = ctx.extra.get("histories_replayed", 0) + len(recs)
 
 
+# ------------------------------------------------------------------------------------------------
+# many-site dipole-dipole operator (spec/multipole/DdiFamily.tla)
+# ------------------------------------------------------------------------------------------------
+def run_ddi(ctx, exe, recs):
+    items = []
+    for i, r in enumerate(recs):
+        items.append((i, ["ddim %r %d %d %d %s %s %s %s %s" % (
+            r["damp"] / 100.0, r["N"], r["reps"], len(r["threads"]), " ".join(map(str, r["threads"])),
+            " ".join(repr(float(v)) for v in r["pos"]), " ".join(repr(float(v)) for v in r["pol"]),
+            " ".join(repr(float(v)) for v in r["x"]), " ".join(repr(float(v)) for v in r["y"]))]))
+    # NOT single-threaded: the clause is about the OpenMP loop in DipoleDipoleInteraction::multiply
+    results, crashes = vlib.run_items(exe, items, env={"OMP_WAIT_POLICY": "passive"})
+    for i, r in enumerate(recs):
+        ctx.traces += 1
+        ctx.nontriv(("ddi", r["N"]))
+        small = {k: r[k] for k in ("fam", "N", "damp", "threads", "reps")}
+        small["generator"] = "spec/multipole/DdiFamily.tla Pos/PolOf/XOf/YOf"
+        if i in crashes:
+            ctx.violation("driver:crash:ddi", "driver died: %s" % crashes[i], r)
+            continue
+        first = results[i][0][0] if results[i] and results[i][0] else "(no output)"
+        if first.startswith("exc"):
+            ctx.violation("exception:ddi", "DipoleDipoleInteraction on %d sites threw: %s" % (r["N"], first), r)
+            continue
+        p = first.split()
+        team = int(p[2])
+        if team < 2:
+            raise vlib.InfraError("drv_multipole runs OpenMP regions with %d thread(s): built without -fopenmp or thread limit; "
+                                  "the thread-independence clause would be vacuous" % team)
+        ref = float(p[4])
+        j = 5
+        while p[j] == "thr":
+            tcount, worst = int(p[j + 1]), float(p[j + 2])
+            ctx.count()
+            if not worst <= 1e-10 * ref:
+                ctx.violation("ddi:thread-independence:N=%d" % r["N"],
+                              "DipoleDipoleInteraction::multiply on %d sites: result with %d OpenMP threads differs from the "
+                              "1-thread result by %.3g (max |op x| = %.3g, %d repetitions)" % (r["N"], tcount, worst, ref, r["reps"]), r)
+            j += 3
+        dense = float(p[j + 1])
+        yax, xay = float(p[j + 3]), float(p[j + 4])
+        ctx.count(2)
+        if not dense <= 1e-10 * ref:
+            ctx.violation("ddi:multiply=dense-thole-blocks:N=%d" % r["N"],
+                          "DipoleDipoleInteraction::multiply (1 thread) on %d sites differs from the dense product of "
+                          "FillTholeInteraction blocks by %.3g (max |op x| = %.3g)" % (r["N"], dense, ref), r)
+        scale = ref * sum(abs(v) for v in r["y"])
+        if not abs(yax - xay) <= 1e-10 * scale:
+            ctx.violation("ddi:operator-symmetric:N=%d" % r["N"],
+                          "y.(op x) = %r but x.(op y) = %r on %d sites" % (yax, xay, r["N"]), r)
+        ctx.extra.setdefault("ddi_runs", []).append({"N": r["N"], "omp_team": team, "threads": r["threads"], "reps": r["reps"]})
+
+
 def _tlc(ctx, module, what, emit=True, timeout=1500, env=None, **kw):
     res = vlib.tlc("multipole", module, cfg=module + ".cfg", workers=WORKERS, timeout=timeout, heap="4g", env=env, **kw)
     vlib.tlc_must_hold(res, what)
@@ -534,6 +589,8 @@ def run(ctx):
         rec = json.load(open(ctx.replay))["replay"]
         if rec.get("fam") == "history":
             replay_hist(ctx, exe, [rec])
+        elif rec.get("fam") == "ddi":
+            run_ddi(ctx, exe, [rec])
         else:
             replay(ctx, exe, [rec])
         return
@@ -558,6 +615,10 @@ def run(ctx):
             replay(ctx, exe, recs[k:k + step])
         del recs
     ctx.extra["vectors_per_family"] = fams
+
+    # many-site operator: thread independence, dense product, symmetry
+    drecs = _tlc(ctx, "MCDdi", "DdiFamily: positions pairwise distinct", emit=False)
+    run_ddi(ctx, exe, drecs)
 
     # mode H: histories of long-lived site objects
     hrecs = _tlc(ctx, "MCHist" + tier, "SiteHist: common rotation about any centre keeps distance and energy orders; Reset; setMultipole",
